@@ -134,6 +134,16 @@ theorem C08_sound (T : Tables) (text : Str) (ec : EC) (strict : Bool) (rows : Li
     rw [h2] at this
     exact this
 
+/-- **C03 (what is dropped).** With group finding on, one step of the parser leaves the segments built so far unchanged — the line
+    is silently dropped (finding D4) — only when the line's name is found neither in the innermost open group, nor in any group
+    around it, nor at the message level: a line that some open level can place is never dropped.  (`s` is any state the
+    parser can be in; the fuel is the one `parse_segments` uses.) -/
+theorem C03_dropped_only_if_unplaceable (T : Tables) (ec : EC) (strict : Bool) (s s' : St) (l : Str)
+    (hp : place T strict (String.ofList (l.take 3)) (fun _ => Pe.segment T (strip l) ec strict) (s.frames.length + 1) s = .ok s')
+    (hsame : s'.flatAll = s.flatAll) :
+    ∀ rows ∈ s.pathRows, findInRows (String.ofList (l.take 3)) rows = none :=
+  place_dropped_unplaceable T strict _ _ _ s s' (by omega) hp hsame
+
 theorem mapM_parse_flat (T : Tables) (ec : EC) (strict : Bool) (lines : List Str) :
     ∀ nodes, lines.mapM (parseLine T ec strict) = .ok nodes →
       flatL nodes = lines.filterMap (parsedLine T ec strict) ∧ nodes.length = lines.length := by
